@@ -49,6 +49,13 @@ CLAIMED = {
             "elements) and compared row by row, sense by sense, by TLC with the normal forms read from the DSL objects.",
             "TLC 1.8; cvxpy expression evaluation used for probing; MOSEK-side encoding is covered by C11 on a stand-in.",
             "6.5"),
+    "C09": ("TLC model checking of spec/Runs.tla (members validated against the class definitions; exact rational execution of "
+            "the method) on programs extracted from the real examples' object graphs + TLC judgement metric(run) <= tau",
+            "Real members of every class are run exactly, in rationals, through the program extracted from each real worked "
+            "example (41 of 81 examples, n <= 3) for every member tuple and grid start; a run is judged only if all its "
+            "samples are genuine (point, subgradient, value) triples; a run beating the returned bound is a violation.",
+            "TLC 1.8; cvxpy+CLARABEL value with tolerance 2e-5 + 1e-5|tau|; rational 1-D/2-D member families.",
+            "6.9"),
     "C11": ("the real MosekWrapper executed against a recording stand-in mosek module + TLC folding of the recorded Task call "
             "sequence with spec/MosekTask.tla (call pre-conditions, row denotation, objective, dual read-out) + cross-check "
             "with the cvxpy back-end on the same TLC-generated programs (SolveTrace.tla)",
@@ -81,6 +88,17 @@ CLAIMED = {
             "6.17"),
 }
 
+EXPLORATION = {
+    "C10": ("TLC as exact rational oracle for the docstring closed forms (spec/Rates.tla) and enumerator of parameter grids "
+            "inside the documented ranges + the real examples run at every grid point + TLC clause-by-clause comparison",
+            "The property compares floating-point numbers over continuous ranges: the model checker contributes the oracle "
+            "(closed forms and validity ranges transcribed from the docstrings) and the grid; the real examples and the "
+            "complexified variants are run with cvxpy+CLARABEL and compared by TLC. A finite grid and one back-end: "
+            "exploration, not a decision.",
+            "TLC 1.8; hand transcription of 72 docstring rates; MOSEK absent (cvxpy back-end only).",
+            "6.10"),
+}
+
 NOT_YET = {}
 
 
@@ -89,8 +107,8 @@ def main():
     checks, na = [], []
     for p in props:
         pid = p["id"]
-        if pid in CLAIMED:
-            tech, text, note, ref = CLAIMED[pid]
+        if pid in CLAIMED or pid in EXPLORATION:
+            tech, text, note, ref = (CLAIMED.get(pid) or EXPLORATION[pid])
             checks.append(dict(
                 property_id=pid,
                 quick_cmd="./check %s --tier quick" % pid,
@@ -98,7 +116,8 @@ def main():
                 evidence_file="/verif/evidence/%s.json" % pid,
                 replay_cmd_template="./check %s --replay {path}" % pid,
                 engine="tlc+driver",
-                level_claimed=dict(category="model_checking", text=text, design_ref="DESIGN.md section " + ref),
+                level_claimed=dict(category="model_checking" if pid in CLAIMED else "exploration", text=text,
+                                   design_ref="DESIGN.md section " + ref),
                 level_note=note,
                 technique=tech))
         else:
@@ -111,7 +130,7 @@ def main():
                    "the harness imports PEPit from /repo's working tree (PYTHONPATH) and substitutes recording wrappers "
                    "through PEPit.wrappers.WRAPPERS at run time", baseline_off_cmd=BASE, source_commits=[], add_only=True),
         engines=[dict(name="tlc+driver", path="/verif/check",
-                      serves_properties=sorted(CLAIMED),
+                      serves_properties=sorted(list(CLAIMED) + list(EXPLORATION)),
                       kind_free_text="TLC 1.8 model checking of /verif/spec/*.tla, Python drivers replaying TLC behaviours "
                                      "on the real PEPit from /repo, TLC trace validation of the recorded traces")],
         checks=checks,
